@@ -3,7 +3,7 @@ import os
 import shutil
 import tempfile
 from lib import asmgen as G, common
-from checks import asmfam, c13, c11, c10
+from checks import asmfam, c13, c11, c10, c09, c07, c01
 from checks.asmfam import mk_case, answer_kind, replay  # noqa: F401
 
 ALPHABET = list("%$()\"\\:;#+-*/,._ \t\n0123456789abcdefxXob") + ["\x00", "\xc3\xa9", "\xff"[:1]]
@@ -63,6 +63,27 @@ def check(run):
         cases.append(mk_case(c10.gen_case(rng), "macros"))
         prog, use, em = c11.gen_case(rng)
         cases.append(mk_case(prog, "emacros"))
+    # the operand-range, auto-sizing and layout families: every boundary where a width, a sign or a label
+    # value decides between an error and bytes (label-dependent operands reach the layout and emit phases,
+    # constant ones are rejected earlier)
+    for c in c09.gen(run):
+        cases.append(mk_case(c["prog"], "range:" + c["cat"]))
+    for c in c07.gen(run)[:80 if run.tier != "thorough" else None]:
+        cases.append(mk_case(c["prog"], "autosize"))
+    for v in (2 ** 256, 2 ** 256 + 5, 2 ** 264, 2 ** 300, -1, -2 ** 255, -2 ** 256, -2 ** 300):
+        e = ("num", v) if v >= 0 else G.climb([("num", 0), "-", ("num", -v)])
+        body = e if v >= 0 else ("paren", e)
+        for lbl_first in (True, False):
+            ops = [("push", G.climb([("lbl", "z"), "+", body]))]
+            prog = ([("label", "z")] + ops + [("op", "jumpdest", None)]) if lbl_first else (ops + [("label", "z"), ("op", "jumpdest", None)])
+            cases.append(mk_case(prog, "oversize-label-push"))
+            cases.append(mk_case([("defi", "m", ["x"], prog)] + [("macro", "m", [("num", 1)])], "oversize-label-push-in-macro"))
+            cases.append(mk_case([("defe", "k", [], body)] + ([("label", "z")] if lbl_first else []) + [("push", G.climb([("lbl", "z"), "+", ("macro", "k", [])]))] + ([] if lbl_first else [("label", "z")]) + [("op", "jumpdest", None)], "oversize-label-push-emacro"))
+        for N in (1, 2, 31, 32):
+            cases.append(mk_case([("op", f"push{N}", G.climb([("lbl", "z"), "+", body])), ("label", "z"), ("op", "jumpdest", None)], "oversize-label-fixed"))
+    for _ in range(6 if run.tier != "thorough" else 30):
+        prog, order = c01.gen_program(rng)
+        cases.append(mk_case(prog, "layout"))
     proof_ok = run.prove()
     ok, out, dt = common.build_harness(False)
     if not ok:
@@ -134,7 +155,7 @@ def check(run):
             found += 1
             if found <= 3:
                 run.violation(dict(property="C14", source=c["src"], outcome=c["impl"], replay="see source"))
-    run.corr["rule"] = ("A: AST-level programs with each of 20 fault kinds + random macro programs, compared with the model (which must not return Panic either); "
+    run.corr["rule"] = ("A: AST-level programs with each of 20 fault kinds, random macro programs, the operand-range / auto-sizing / layout families of C09 C07 C01, label-dependent pushes of 2^256..2^300 and negative values (plain, inside an instruction macro, through an expression macro, label before and after), compared with the model (which must not return Panic either); "
                         "B: 100 hand-written odd strings + byte-level mutations of valid and odd sources (insert/delete/replace from a punctuation-heavy alphabet, truncate, duplicate); "
                         "C: cyclic imports/includes, missing files, directories, invalid hex, 14 unusual root paths x 7 directives; D: deep parenthesis nesting; "
                         "outcome of every case must be a returned value; distinct = distinct requests")
